@@ -18,23 +18,28 @@ import (
 
 // oneCase is everything the stages need to know about one blob.
 type oneCase struct {
-	Desc     string
-	Class    string // "builder" | "hand"
-	Features []string
-	Blob     []byte
-	Decomp   []metadata.Decompressor
-	Truth    *truth
-	Facts    *facts
-	Replay   map[string]any
-	BuildErr error
-	Light    bool // zstd: probe fewer ranges (decoder set-up dominates the run time)
+	Desc      string
+	Class     string // "builder" | "hand"
+	Features  []string
+	Blob      []byte
+	Decomp    []metadata.Decompressor
+	Truth     *truth
+	Facts     *facts
+	Replay    map[string]any
+	BuildErr  error
+	built     *blob.Built
+	tocParsed bool
+	Light     bool // zstd: probe fewer ranges (decoder set-up dominates the run time)
 }
 
 var errSkipped = fmt.Errorf("skipped in this stage")
 
 var handFeatures = []string{"implicit", "dupdir", "hardchain", "nodigest", "dotnames", "emptyxattr", "trailing", "innershared", "rootentry"}
 
-func builderCase(rng *prng.R, thorough bool, noZstd bool) *oneCase {
+// builderCase. load, when non-nil, supplies the blob built earlier by the plain top
+// process from the very same (deterministic) tar and options: estargz.Build under the
+// race detector costs ~8 s per blob, and the builder is not what this check is about.
+func builderCase(rng *prng.R, thorough bool, noZstd bool, load func(bo blob.Opts) (*blob.Built, error)) *oneCase {
 	chunk := int64(rng.Pick(1, 7, 64, 512, 512, 4096))
 	o := gen.DefaultOpts(chunk)
 	if thorough {
@@ -71,16 +76,35 @@ func builderCase(rng *prng.R, thorough bool, noZstd bool) *oneCase {
 	}
 	c.Desc = fmt.Sprintf("builder{%s} tar{%s}", bo.String(), gen.Describe(es))
 	c.Replay = map[string]any{"kind": "builder", "opts": bo.String(), "tar": gen.Describe(es)}
-	b, err := blob.Build(gen.TarBytes(es), bo)
+	var b *blob.Built
+	var err error
+	if load != nil {
+		b, err = load(bo)
+	} else {
+		b, err = blob.Build(gen.TarBytes(es), bo)
+	}
 	if err != nil {
 		c.BuildErr = err
 		return c
 	}
 	c.Blob = b.Blob
+	c.built = b
 	c.Light = bo.Compression == "zstdchunked"
 	c.Decomp = b.Decompressors()
 	c.Truth = &truth{fs: fsm}
-	c.Facts = mkFacts(es, "builder")
+	// the classifier's facts come from the TOC the stores are given (the builder drops
+	// earlier duplicates and may reorder), extracted independently of /repo
+	factEntries := es
+	if js, err := extractTOC(b); err == nil {
+		if tes, err := tocEntries(js); err == nil {
+			factEntries = tes
+			c.tocParsed = true
+		}
+		if len(js) <= 48<<10 {
+			c.Replay["toc_json"] = string(js)
+		}
+	}
+	c.Facts = mkFacts(factEntries, "builder")
 	c.Facts.tocTruth = b.TOCDigest.String()
 	if bo.MinChunkSize > 0 {
 		c.Features = append(c.Features, "builder:minchunk")
@@ -173,6 +197,10 @@ func handCase(rng *prng.R, feats []string, minimal bool) *oneCase {
 		b.reg("imp/deep/er/file", b.size())
 		b.dir("imp2/sub/", 0o700)
 		b.sym("imp3/l", "../imp/deep")
+		if minimal || rng.Bool() {
+			// the directory is declared only after an entry beneath it made it exist
+			b.dir("imp/deep/", 0o750)
+		}
 	}
 	if on["dupdir"] {
 		d1 := b.dir("d/", 0o700)
@@ -245,8 +273,11 @@ func handCase(rng *prng.R, feats []string, minimal bool) *oneCase {
 	if on["innershared"] {
 		b.dir("in/", 0o755)
 		a := b.reg("in/a", 1+rng.Int63n(b.c))
-		a.Chunks, a.NewStream = nil, []bool{true}
-		if rng.Bool() {
+		// minimal: "in/a" is the first payload of the blob and stays in the member that
+		// begins at blob offset 0 (offset 0 is omitted from the TOC, innerOffset = header
+		// bytes), as the builder lays it out with MinChunkSize > 0
+		a.Chunks, a.NewStream = nil, []bool{!minimal}
+		if minimal || rng.Bool() {
 			b.reg("in/empty0", 0)
 		}
 		x := b.reg("in/b", 1+rng.Int63n(b.c))
